@@ -29,6 +29,25 @@ func (s *ATStmt) WhereSQL(sc *ATSchema) (string, []interface{}) {
 	return " WHERE " + o.sb.String(), args
 }
 
+// SelectionSQL is WhereSQL plus the statement's ORDER BY … LIMIT: what selects the rows it works on
+func (s *ATStmt) SelectionSQL(sc *ATSchema) (string, []interface{}) {
+	q, args := s.WhereSQL(sc)
+	if s.HasLimit() {
+		q += " ORDER BY "
+		for i, it := range s.Order {
+			if i > 0 {
+				q += ", "
+			}
+			q += sc.Cols[it.Col].Name
+			if it.Desc {
+				q += " DESC"
+			}
+		}
+		q += fmt.Sprintf(" LIMIT %d", s.Limit)
+	}
+	return q, args
+}
+
 type queryer interface {
 	QueryContext(ctx context.Context, q string, args ...interface{}) (*sql.Rows, error)
 }
@@ -145,7 +164,7 @@ func execLocalObserved(w *ATWorld, cs *ATCase, cid string) *localObs {
 					step := c18Step{st: st}
 					step.before, _ = tableByKey(ctx, tx, sc, "", nil)
 					if st.Kind != 'X' {
-						wsql, wargs := st.WhereSQL(sc)
+						wsql, wargs := st.SelectionSQL(sc)
 						step.matched, _ = tableByKey(ctx, tx, sc, wsql, wargs)
 					}
 					disarm := st.Arm(w.Eng, sc.Table)
@@ -171,7 +190,7 @@ func execLocalObserved(w *ATWorld, cs *ATCase, cid string) *localObs {
 				step := c18Step{st: st}
 				step.before, _ = tableByKey(ctx, w.Bare, sc, "", nil)
 				if st.Kind != 'X' {
-					wsql, wargs := st.WhereSQL(sc)
+					wsql, wargs := st.SelectionSQL(sc)
 					step.matched, _ = tableByKey(ctx, w.Bare, sc, wsql, wargs)
 				}
 				disarm := st.Arm(w.Eng, sc.Table)
@@ -221,7 +240,7 @@ func runC18(c *Ctx) {
 	for i := 0; i < n; i++ {
 		r := rng.Fork()
 		cid := fmt.Sprintf("c18-%d", i)
-		o := ATGenOpts{AllowFindings: r.Chance(20), NullableVals: r.Chance(50), StrPK: r.Chance(30), PKUpdates: r.Chance(50), BigInts: r.Chance(10), ContinueOnError: r.Chance(40), Upserts: r.Chance(30)}
+		o := ATGenOpts{AllowFindings: r.Chance(20), NullableVals: r.Chance(50), StrPK: r.Chance(30), PKUpdates: r.Chance(50), BigInts: r.Chance(10), ContinueOnError: r.Chance(40), Upserts: r.Chance(30), OrderLimit: r.Chance(40)}
 		cs := genATCase(r, w, cid, o)
 		cs.Locals = cs.Locals[:1]
 		cs.OnlyCare = r.Bool()
